@@ -357,6 +357,9 @@ def gen_step(rng, lib, last_type, first, opts):
         step["doc"] = "\n".join(lines)
         if rng.random() < 0.3:
             step["doc_quote"] = "'''"
+        if rng.random() < 0.12:
+            # a step may carry BOTH a doc-string and (after it) a table
+            step["table"] = {"headings": ["d0", "d1"], "rows": [["x%d" % rng.randint(0, 9), "y"]]}
     elif r < opts["p_doc"] + opts["p_table"]:
         nc = rng.randint(1, 3)
         step["table"] = {"headings": ["h%d" % c for c in range(nc)],
@@ -419,6 +422,8 @@ def gen_outline(rng, lib, sid, opts):
             tail = "\n" if st["doc"].endswith("\n") else ""     # keep a final empty line final
             st["doc"] = st["doc"][:len(st["doc"]) - len(tail)] + \
                 ("\nvalue <%s>" if rng.random() < 0.7 else "\n5 > 3 and <%s>") % rng.choice(cols) + tail
+        if st.get("table") and rng.random() < 0.15:
+            st["table"]["headings"][-1] = "h<%s>" % rng.choice(cols)      # a placeholder in a HEADING cell
         if st.get("table") and st["table"]["rows"] and rng.random() < 0.5:
             st["table"]["rows"][0][0] = "<%s>" % rng.choice(cols)
     examples = []
@@ -527,12 +532,41 @@ def gen_feature(rng, lib, fi, opts):
     fid = "F%d" % fi
     sub = rng.choice(["", "", "", "", "area/", "my area/", "v1.2/"])
     fname = rng.choice(["f%d.feature"] * 17 + ["f %d.feature", "f %d.feature", "f.%d.feature"])
-    return {"id": fid, "path": "features/%s%s" % (sub, fname % fi),
+    feat = {"id": fid, "path": "features/%s%s" % (sub, fname % fi),
             "name": "feat %s%s" % (fid, hostile_suffix(rng, opts)),
             "tags": gen_tags(rng, opts["tag_pool"], opts["p_tag"]),
             "description": ["some description"] if rng.random() < 0.3 else [],
             "background": gen_background(rng, lib, opts),
             "items": gen_items(rng, lib, fid, rng.randint(1, opts["max_items"]), opts, True)}
+    and_first_steps(rng, lib, feat, opts)
+    return feat
+
+
+def and_first_steps(rng, lib, feat, opts):
+    """A scenario may START with And / But: its type is that of the last background step in force
+    (the rule's own background if it has steps, else the feature's)."""
+    def last_type(bg):
+        return bg["steps"][-1]["type"] if bg and bg.get("steps") else None
+    ftype = last_type(feat.get("background"))
+
+    def visit(items, inherited):
+        for it in items:
+            if it["kind"] == "rule":
+                visit(it["items"], last_type(it.get("background")) or inherited)
+            elif inherited and it["steps"] and rng.random() < 0.12:
+                cands = [d for d in lib["defs"] if d["type"] in (inherited, "step")]
+                st = it["steps"][0]
+                if cands and st.get("doc") is None and not st.get("table") and "<" not in st["text"]:
+                    d = rng.choice(cands)
+                    st.update({"kw": rng.choice(["And", "But"]), "type": inherited,
+                               "text": instantiate(rng, d), "def": d["id"]})
+                    # (the types of following And/But steps were derived from the old first step)
+                    for nxt in it["steps"][1:]:
+                        if nxt["kw"] in ("And", "But", "*"):
+                            nxt["kw"] = STEP_KW[nxt["type"]]
+                        else:
+                            break
+    visit(feat["items"], ftype)
 
 
 # ---------------------------------------------------------------------------
@@ -985,6 +1019,13 @@ def gen_script(rng, world, dims):
             ent = {"acts": gen_actions(rng, world, dims, name), "out": {"kind": "ok"}}
             if rng.random() < dims["p_hook_fail"] * 0.5:
                 ent["out"] = {"kind": "exc", "cls": "Exception", "msg": "all-hook"}
+            if name == "before_all" and rng.random() < 0.06:
+                # environment code switches the step matcher (steps are loaded already: it must not
+                # matter for this run, and the NEXT run starts from the default again)
+                ent["acts"].append({"a": "use_matcher", "name": rng.choice(["re", "cfparse"])})
+            if name == "before_all" and dims["cleanups"] and rng.random() < 0.15:
+                # the documented user handler for cleanup errors; what it returns is irrelevant
+                ent["acts"].append({"a": "install_cleanup_handler", "returns": rng.choice([True, None, False])})
             if dims.get("log_level_changes") and name == "before_all" and rng.random() < 0.5:
                 ent["acts"].append({"a": "root_level", "level": rng.choice([0, 10, 30, 40, 50])})
             if ent["acts"] or ent["out"]["kind"] != "ok":
